@@ -5,7 +5,7 @@ import re
 import subprocess
 
 from fsx import core
-from fsx.core import D, F
+from fsx.core import D, F, L
 
 ID = 'C20'
 LEVEL = 'exploration'
@@ -203,6 +203,8 @@ def groups(tier, seed):
         if chunk:
             yield {'tool': tool, 'lists': chunk}
     yield from combo_groups()
+    yield from nested_groups()
+    yield {'tool': 'context'}
 
 
 COMBO_HG = [[('glob', 'build')], [('regexp', r'\.o$')], [('glob', 'src/sub')], [('regexp', '^build$')], [('glob', '*.c'), ('glob', 'docs')]]
@@ -277,7 +279,149 @@ def eval_combo(env, group):
     return outs
 
 
+def nested_groups():
+    # a repository inside a repository: the rules of the nearest one count, in both traversal orders and from every root
+    for tool in ('git', 'hg'):
+        for inner_rules in (None, 'own'):
+            for mode in ('', 'bfs', 'dfs'):
+                yield {'tool': 'nested', 'vcs': tool, 'inner': inner_rules, 'mode': mode}
+
+
+def eval_nested(env, group):
+    holder = env.newdir('c20n')
+    vcs = group['vcs']
+    top = os.path.join(holder, 'top')
+    tree = {'A': D({'a.log': F(1), 'a.o': F(1), 'keep.c': F(1), 'N': D({'n.log': F(1), 'n.o': F(1), 'k.c': F(1), 'deep': D({'d.log': F(1), 'd.o': F(1)})}),
+                    'sub': D({'s.log': F(1), 's.c': F(1)})}), 'B': D({'b.log': F(1)}), 'x.log': F(1)}
+    os.mkdir(top)
+    core.materialise(top, tree)
+    A, N = os.path.join(top, 'A'), os.path.join(top, 'A', 'N')
+    outs = []
+    try:
+        genv = dict(os.environ, HOME=env.home, GIT_CONFIG_NOSYSTEM='1')
+        rules = {A: ['*.log'], N: (['*.o'] if group['inner'] == 'own' else [])}
+        for repo in (A, N):
+            if vcs == 'git':
+                subprocess.run(['git', 'init', '-q', repo], check=True, stdout=subprocess.DEVNULL, stderr=subprocess.DEVNULL, env=genv)
+                if rules[repo]:
+                    open(os.path.join(repo, '.gitignore'), 'w').write('\n'.join(rules[repo]) + '\n')
+            else:
+                os.mkdir(os.path.join(repo, '.hg'))
+                if rules[repo]:
+                    open(os.path.join(repo, '.hgignore'), 'w').write('syntax: glob # the patterns below are globs\n' + '\n'.join(rules[repo]) + '\n')
+        ents = []
+        for dp, dns, fns in os.walk(top):
+            dns[:] = [d for d in dns if d not in ('.git', '.hg')]
+            for n in dns + fns:
+                ents.append(os.path.relpath(os.path.join(dp, n), top))
+
+        def ignored(rel):
+            full = os.path.join(top, rel)
+            repo = N if (full + '/').startswith(N + '/') else A if (full + '/').startswith(A + '/') else None
+            if repo is None or full == repo:
+                # the nested repository's own directory is an entry of the outer one
+                repo = A if full == N else None
+                if repo is None:
+                    return False
+            import fnmatch
+            relr = os.path.relpath(full, repo)
+            return any(fnmatch.fnmatch(part, pat) for pat in rules[repo] for part in relr.split('/'))
+        opt = 'gitignore' if vcs == 'git' else 'hgignore'
+        for frm, scope in ((('top', ''),) if vcs == 'git' else ()) + (('top/A', 'A/'), ('top/A/N', 'A/N/'), ('top/A/N, top/A/sub', None), ('top/B, top/A', None)):       # (a root above a repository: git only, the other tools look upwards)
+            q = 'path from ' + ', '.join(r + ' ' + opt + (' ' + group['mode'] if group['mode'] else '') for r in frm.split(', ')) + ' into list'
+            o = env.run([q], cwd=holder, timeout=20.0)
+            scopes = [scope] if scope is not None else [r[4:] + '/' for r in frm.split(', ')]
+            if vcs == 'hg':
+                # one context per search root: the repository the root lies in (hg itself never looks into a nested repository)
+                import fnmatch
+                exp = []
+                for sc in scopes:
+                    rootdir = os.path.join(top, sc.rstrip('/'))
+                    repo = N if (rootdir + '/').startswith(N + '/') else A if (rootdir + '/').startswith(A + '/') else None
+                    for e in ents:
+                        if not e.startswith(sc):
+                            continue
+                        relr = os.path.relpath(os.path.join(top, e), repo) if repo else e
+                        if repo and any(fnmatch.fnmatch(part, pat) for pat in rules[repo] for part in relr.split('/')):
+                            continue
+                        exp.append(e)
+                exp.sort()
+            else:
+                exp = sorted(e for e in ents if any(e.startswith(sc) for sc in scopes) and not ignored(e))
+            got = sorted(os.path.relpath(os.path.normpath(os.path.join(holder, p_)), top) for p_ in o.rows()
+                         if not any(part in ('.git', '.hg') for part in p_.split('/')))
+            case = dict(group, frm=frm)
+            r = {'case': case, 'layer': 'nested-repositories', 'nt': True, 'trans': len(ents)}
+            if o.timeout or o.panicked or o.rc != 0 or o.err:
+                r.update(status='viol', cls='nested:status', detail=dict(o.brief(), query=q), sig=('err',))
+            elif got != exp:
+                r.update(status='viol', cls='nested:%s:rows' % vcs, sig=('rows', vcs, group['mode']),
+                         detail={'query': q, 'wrongly_hidden': [e for e in exp if e not in got][:8], 'wrongly_shown': [e for e in got if e not in exp][:8]})
+            else:
+                r.update(status='ok', sig=('nested', len(exp)))
+            outs.append(r)
+    finally:
+        env.rmtree(holder)
+    return outs
+
+
+def eval_context(env, group):
+    """ignore files found through odd places: an ancestor whose name is no valid UTF-8, a followed link that leaves the repository"""
+    holder = env.newdir('c20x')
+    outs = []
+    genv = dict(os.environ, HOME=env.home, GIT_CONFIG_NOSYSTEM='1')
+
+    def emit(sub, q, o, got, exp):
+        r = {'case': dict(group, sub=sub), 'layer': 'odd-context', 'nt': True, 'trans': len(exp) + 1}
+        if o.timeout or o.panicked or o.rc != 0 or o.err:
+            r.update(status='viol', cls='context:status', detail=dict(o.brief(), query=q), sig=('err',))
+        elif sorted(got) != sorted(exp):
+            r.update(status='viol', cls='context:' + sub, sig=('rows', sub), detail={'query': q, 'got': sorted(got), 'expected': sorted(exp)})
+        else:
+            r.update(status='ok', sig=(sub,))
+        outs.append(r)
+    try:
+        # (a) the ignore file lies in / above a directory with a non-UTF-8 name
+        odd = os.path.join(holder.encode(), b'r\xff')
+        ctx = os.path.join(odd, b'ctx')
+        os.makedirs(os.path.join(ctx, b'sub'))
+        os.makedirs(os.path.join(odd, b'.hg'))
+        for n in (b'a.log', b'b.txt', b'sub/c.log', b'sub/d.txt'):
+            open(os.path.join(ctx, n), 'w').close()
+        open(os.path.join(ctx, b'.dockerignore'), 'w').write('a.log\nsub/c.log\n')
+        open(os.path.join(odd, b'.hgignore'), 'w').write('syntax: glob\n*.log\n')
+        for opt, exp in (('dockerignore', ['b.txt', 'sub', 'd.txt', '.dockerignore']), ('hgignore', ['b.txt', 'sub', 'd.txt', '.dockerignore'])):
+            for frm in ('.', 'sub'):
+                q = 'name from %s %s into list' % (frm, opt)
+                o = env.run([q], cwd=os.fsdecode(ctx))
+                e = [x for x in exp if frm == '.' or x == 'd.txt']
+                emit('non-utf8-ancestor:' + opt, q, o, o.rows(), e)
+        # (b) a followed link leads out of the repository: its rules say nothing about what lies outside
+        repo, out = os.path.join(holder, 'r'), os.path.join(holder, 'out')
+        core.materialise(holder, {'r': D({'in': D({'fo': F(1), 'keep': F(1)}), 'l': L('../out')}), 'out': D({'o': D({'fo': F(1), 'x.log': F(1)}), 'tmpfile': F(1)})})
+        subprocess.run(['git', 'init', '-q', repo], check=True, stdout=subprocess.DEVNULL, stderr=subprocess.DEVNULL, env=genv)
+        first = holder.split('/')[1]
+        for rules, hidden_in in ((['/' + first], []), (['fo'], ['in/fo']), (['out/'], []), (['*.log', 'o'], [])):
+            open(os.path.join(repo, '.gitignore'), 'w').write('\n'.join(rules) + '\n')
+            for mode in ('', ' dfs'):
+                q = 'path from r symlinks gitignore%s into list' % mode
+                o = env.run([q], cwd=holder)
+                exp = ['r/in', 'r/in/fo', 'r/in/keep', 'r/l', 'r/l/o', 'r/l/o/fo', 'r/l/o/x.log', 'r/l/tmpfile', 'r/.gitignore']
+                exp = [e for e in exp if e[2:] not in hidden_in]
+                got = [p_ for p_ in o.rows() if not any(part == '.git' for part in p_.split('/'))]
+                emit('link-out-of-repository', q + '  # .gitignore: ' + ' '.join(rules), o, got, exp)
+    finally:
+        import shutil
+        shutil.rmtree(os.path.join(holder.encode(), b'r\xff'), ignore_errors=True)
+        env.rmtree(holder)
+    return outs
+
+
 def single(case):
+    if case.get('tool') == 'context':
+        return {'tool': 'context'}
+    if case.get('tool') == 'nested':
+        return {k: case[k] for k in ('tool', 'vcs', 'inner', 'mode')}
     if case.get('tool') == 'combo':
         return {'tool': 'combo', 'hg': case['hg'], 'docker': case['docker'], 'git': case['git']}
     return {'tool': case['tool'], 'lists': [case['list']], 'only': case['cfg']}
@@ -291,6 +435,10 @@ FILE = {'git': '.gitignore', 'docker': '.dockerignore', 'hg': '.hgignore'}
 def eval_group(env, group, tier):
     if group['tool'] == 'combo':
         return eval_combo(env, group)
+    if group['tool'] == 'nested':
+        return eval_nested(env, group)
+    if group['tool'] == 'context':
+        return eval_context(env, group)
     tool = group['tool']
     holder = env.newdir('c20')
     repo = os.path.join(holder, 'repo')        # reached through a name that is full of regex metacharacters
